@@ -92,6 +92,10 @@ def parse_template(path):
         elif s.startswith("//@source"):
             a = _directive_args(s[9:])
             sources[a["name"]] = a
+        elif s.startswith("//@prelude"):
+            # shared environment text (trusted std specifications), kept in contracts/prelude/<name>.inc.rs
+            name = s[len("//@prelude"):].strip()
+            buf.append(open(os.path.join(VERIF, "contracts", "prelude", name + ".inc.rs")).read())
         elif s.startswith("//@require"):
             parts.append(("text", "\n".join(buf) + "\n"))
             buf = []
